@@ -156,6 +156,11 @@ func run(id, tier, seed, replay string, shardsOverride int, keep bool) int {
 	env := scrubEnv()
 	env = append(env, "VERIF_TIER="+tier, "VERIF_SEED="+seed, "VERIF_WORK="+work, "VERIF_ROOT="+root())
 
+	// ---- a saved fuzz input (a worker died or hung on it): re-run it through the fuzz target
+	if strings.HasSuffix(replay, ".fuzz") {
+		return replayFuzz(id, replay, env, work)
+	}
+
 	// ---- build from /repo's current working tree
 	bin := filepath.Join(work, "c.test")
 	bargs := []string{"test", "-c", "-tags", "verif", "-vet=off", "-o", bin}
@@ -375,9 +380,33 @@ func runFuzz(id string, targets map[string]int, env []string, work string) (map[
 			_ = json.Unmarshal(jb, &e)
 			viols = append(viols, harness.Violation{Sub: name, Msg: e.Note, Case: jb})
 		}
-		// the fuzzer leaves its crasher under the package's testdata; the
-		// envelope above is what we keep
-		_ = os.RemoveAll(filepath.Join(root(), "checks", strings.ToLower(id), "testdata", "fuzz", name))
+		// the fuzzer leaves its crasher under the package's testdata. When
+		// the oracle rejected the input the envelope above is what we keep;
+		// when the worker died or hung (no envelope) the crasher itself is
+		// kept as <target>__<name>.fuzz, replayable with --replay
+		tdir := filepath.Join(root(), "checks", strings.ToLower(id), "testdata", "fuzz", name)
+		if len(files) == 0 {
+			crashers, _ := filepath.Glob(filepath.Join(tdir, "*"))
+			for _, c := range crashers {
+				cb, rerr := os.ReadFile(c)
+				if rerr != nil {
+					continue
+				}
+				keep := filepath.Join(root(), ".work", "violations", id, name+"__"+filepath.Base(c)+".fuzz")
+				_ = os.MkdirAll(filepath.Dir(keep), 0o755)
+				_ = os.WriteFile(keep, cb, 0o644)
+				msg := "the fuzz worker died or hung on this input"
+				for _, l := range strings.Split(string(b), "\n") {
+					if strings.Contains(l, "fuzzing process hung or terminated") || strings.Contains(l, "panic:") || strings.Contains(l, "fatal error:") {
+						msg += ": " + strings.TrimSpace(l)
+						break
+					}
+				}
+				viols = append(viols, harness.Violation{Sub: name, Msg: msg, Case: cb, Replay: keep})
+				files = append(files, keep)
+			}
+		}
+		_ = os.RemoveAll(tdir)
 		st["failing_inputs"] = len(files)
 		if err != nil && len(files) == 0 {
 			fmt.Printf("INCONCLUSIVE fuzz target %s failed without a recorded case; see %s\n", name, filepath.Join(work, "fuzz-"+name+".log"))
@@ -387,6 +416,45 @@ func runFuzz(id string, targets map[string]int, env []string, work string) (map[
 		out[name] = st
 	}
 	return out, viols, inconclusive
+}
+
+// replayFuzz re-runs one saved fuzz input (<target>__<name>.fuzz) through its
+// target.
+func replayFuzz(id, path string, env []string, work string) int {
+	base := strings.TrimSuffix(filepath.Base(path), ".fuzz")
+	i := strings.Index(base, "__")
+	if i < 0 {
+		fmt.Fprintf(os.Stderr, "%s: not <target>__<name>.fuzz\n", path)
+		return 2
+	}
+	target := base[:i]
+	cb, err := os.ReadFile(path)
+	if err != nil {
+		fmt.Fprintln(os.Stderr, err)
+		return 2
+	}
+	tdir := filepath.Join(root(), "checks", strings.ToLower(id), "testdata", "fuzz", target)
+	_ = os.MkdirAll(tdir, 0o755)
+	defer os.RemoveAll(filepath.Join(root(), "checks", strings.ToLower(id), "testdata"))
+	if err := os.WriteFile(filepath.Join(tdir, "replay"), cb, 0o644); err != nil {
+		fmt.Fprintln(os.Stderr, err)
+		return 2
+	}
+	cmd := exec.Command("go", "test", "-tags", "verif", "-vet=off", "-timeout", "300s", "-run", "^"+target+"$/^replay$", "./checks/"+strings.ToLower(id))
+	cmd.Dir = root()
+	cmd.Env = append(append([]string{}, env...), "VERIF_SHARD=0/1", "VERIF_WORK="+work)
+	out, err := cmd.CombinedOutput()
+	if err != nil {
+		fmt.Printf("VIOLATION property=%s replay=%s\n", id, path)
+		lines := strings.Split(strings.TrimSpace(string(out)), "\n")
+		if len(lines) > 12 {
+			lines = lines[:12]
+		}
+		fmt.Printf("  sub-check %s: %s\n", target, oneLine(strings.Join(lines, "\n"), 900))
+		return 1
+	}
+	fmt.Printf("OK property=%s replay=%s\n", id, path)
+	return 0
 }
 
 func sanitize(s string) string {
